@@ -3,8 +3,9 @@
 
    Everything is stated per entity e: `spec wl ops e` is the abstract record of e after the
    history `ops` under policy wl (false = blacklist, true = whitelist).  It is computed by a
-   four-field state machine that looks only at the operations that mention e and at ticks,
+   three-field state machine that looks only at the operations that mention e and at ticks,
    so independence between entities holds by construction (spec_proj in the proofs).
+   The machine is THE SAME for both policies except for the default d = negb wl.
 
      a_cur    the most recent `VSet e b` since the entity last started, else the policy default
               d = negb wl (blacklist: visible, whitelist: hidden).
@@ -12,40 +13,29 @@
               which forgets everything about e; so at a VTick with a pending despawn of e the
               setting is reset to d -- INCLUDING settings made after the VDespawn but before that
               tick (an entity whose `Replicated` marker is removed and re-inserted inside one
-              tick window loses the settings made in that window; see C08_vis.v examples).
-     a_prev   (ideal) the value of a_cur at the last VTick = what this client has been told;
+              tick window loses the settings made in that window; see Properties/C08.v,
+              C08_reinsert_forgets_setting).
+     a_prev   the value of a_cur at the last VTick = what this client has been told;
               reset to d when a despawn of e is processed (d and not "client does not have it":
               a blacklist has no entry for a fresh entity, so it classifies it as VVisible and
               it is src/server.rs that sends it in full because the marker was just added).
-     a_eprev  (effective) what the Rust structure actually remembers of a_prev.
-              Blacklist: always equal to a_prev.  Whitelist: `set_visibility(e, true)` on a
-              currently hidden entity inserts JustAdded and REMOVES e from `removed`, so it
-              forgets that the client had the entity: a_eprev := false.  a_eprev -> a_prev
-              always holds; they differ exactly after hide-then-show of an entity the client
-              has, inside one window.  Consequences (proved / refuted in the proofs):
-              show again   => classified VGained instead of VVisible (harmless full resend),
-              hide again   => NO despawn record although the client has the entity (defect).
      a_pend   number of occurrences of e in the despawn buffer. *)
 From RV Require Import Lib.Res Vis.Visibility.
 Open Scope N_scope.
 
-Record acell := mkCell { a_cur : bool; a_prev : bool; a_eprev : bool; a_pend : nat }.
+Record acell := mkCell { a_cur : bool; a_prev : bool; a_pend : nat }.
 
-Definition a_init (wl : bool) : acell := mkCell (negb wl) (negb wl) (negb wl) 0.
+Definition a_init (wl : bool) : acell := mkCell (negb wl) (negb wl) 0.
 
 Definition astep (wl : bool) (e : N) (c : acell) (op : vop) : acell :=
   match op with
   | VSet e' b =>
-      if e' =? e then
-        mkCell b (a_prev c)
-               (if wl && b && negb (a_cur c) then false else a_eprev c)
-               (a_pend c)
-      else c
+      if e' =? e then mkCell b (a_prev c) (a_pend c) else c
   | VDespawn e' =>
-      if e' =? e then mkCell (a_cur c) (a_prev c) (a_eprev c) (S (a_pend c)) else c
+      if e' =? e then mkCell (a_cur c) (a_prev c) (S (a_pend c)) else c
   | VTick =>
       match a_pend c with
-      | O => mkCell (a_cur c) (a_cur c) (a_cur c) 0
+      | O => mkCell (a_cur c) (a_cur c) 0
       | S _ => a_init wl
       end
   end.
@@ -55,7 +45,6 @@ Definition spec (wl : bool) (ops : list vop) (e : N) : acell :=
 
 Definition spec_cur wl ops e := a_cur (spec wl ops e).
 Definition spec_prev wl ops e := a_prev (spec wl ops e).
-Definition spec_eprev wl ops e := a_eprev (spec wl ops e).
 Definition spec_pend wl ops e := a_pend (spec wl ops e).
 
 (* ----- what a tick must output, as a function of the record just before the tick ----- *)
@@ -64,8 +53,8 @@ Definition spec_pend wl ops e := a_pend (spec wl ops e).
    already reset the entity *)
 Definition mid_cur (wl : bool) (c : acell) : bool :=
   match a_pend c with O => a_cur c | S _ => negb wl end.
-Definition mid_eprev (wl : bool) (c : acell) : bool :=
-  match a_pend c with O => a_eprev c | S _ => negb wl end.
+Definition mid_prev (wl : bool) (c : acell) : bool :=
+  match a_pend c with O => a_prev c | S _ => negb wl end.
 
 Definition classify (cur prev : bool) : vstate :=
   if cur then (if prev then VVisible else VGained) else VHidden.
@@ -75,14 +64,14 @@ Definition classify (cur prev : bool) : vstate :=
      - it is visible now and a despawn of it is pending             (ordinary despawn), or
      - blacklist only: it is pending at least twice                 (the first processed despawn
        resets it to "visible", the second one then reports it).
-   In terms of "the client has it" (p = a_eprev) this is
+   In terms of "the client has it" (p = a_prev) this is
        p && (negb cur || pending)                                   (every entity the client has
                                                                      and must drop gets a record)
     || negb p && cur && pending                                     (gained and despawned inside
                                                                      one window: extra record)
     || negb wl && pending twice                                     (extra record). *)
 Definition despawn_record (wl : bool) (c : acell) : bool :=
-  (a_eprev c && negb (a_cur c))
+  (a_prev c && negb (a_cur c))
   || match a_pend c with
      | O => false
      | S O => a_cur c
